@@ -3,11 +3,16 @@
 for t in "$@"; do
   id=$(echo $t | cut -c1-3)
   echo "=== $t"
+  cp /verif/evidence/$id.json /tmp/evidence_$id.keep 2>/dev/null
   if git -C /repo apply /tmp/seed/$t.patch.diff; then
     /verif/check $id 2>&1 | grep -i "failing input\|VIOLATION\|\[check\] C" | cut -c1-330 | head -3
     git -C /repo checkout -- .
+    # the evidence file written on the changed tree is not evidence about /repo: put the previous one back
+    cp /tmp/evidence_$id.keep /verif/evidence/$id.json 2>/dev/null
   else
     echo "patch does not apply"
   fi
 done
+# regenerate the source-derived tables from the restored tree (the last check left those of the changed tree behind)
+for t in consts accounts skeleton txlists oracles; do python3 /verif/translator/$t.py >/dev/null 2>&1; done
 git -C /repo status --short | head -3
